@@ -214,7 +214,12 @@ def oriented_bounds(obj, angle_digits=1, ordered=True, normal=None, coplanar_tol
     vertices = hull.vertices
     hull_adj = hull.face_adjacency.T
     hull_edge = hull.face_adjacency_edges
-    hull_normals = hull.face_normals
+    # `face_normals` is zero for faces below the absolute zero tolerance, which
+    # on a very small hull is every face: unitize the cross products with a
+    # cutoff relative to the largest face instead
+    hull_cross = hull.triangles_cross
+    hull_peak = np.sqrt((hull_cross**2).sum(axis=1).max())
+    hull_normals = util.unitize(hull_cross, threshold=1e-13 * min(1.0, hull_peak))
 
     # matrices which will rotate each hull normal to [0,0,1]
     if normal is None:
